@@ -6,7 +6,7 @@
      crates/glaredb_core/src/functions/scalar/builtin/negate.rs
        Negate::execute |&a, buf| buf.put(&(-a))               (signed widths only)
      crates/glaredb_core/src/functions/aggregate/builtin/sum.rs
-       SumStateCheckedAdd: self.sum = self.sum.checked_add(..).unwrap_or_default()
+       SumStateCheckedAdd: self.sum = self.sum.checked_add(..).ok_or_else(|| DbError::new("Sum overflowed"))?
      crates/glaredb_core/src/functions/aggregate/builtin/avg.rs
        AvgStateF64<i64, i128>: sum += input (i128), count += 1, sum as f64 / count as f64
 
@@ -117,18 +117,29 @@ Definition known_class_b (sg : sgn) (w : Z) (op : binop) (a b : Z) : bool :=
   || match op, sg with Rem, Signed => (a =? lo Signed w) && (b =? -1) | _, _ => false end.
 
 (* ---------------------------------------------------------------- SUM / AVG over integers *)
-(* SumStateCheckedAdd<i64, _>: `checked_add(..).unwrap_or_default()`: an overflowing step RESETS the
-   running sum to 0 and carries on.  One state per partition, merged with the same step. *)
-Definition sum_step (w : Z) (s x : Z) : Z := if in_range Signed w (s + x) then s + x else 0.
-Definition sum_fold (w : Z) (xs : list Z) : Z := fold_left (sum_step w) xs 0.
-(* partitions: each folds its own rows, then the states are merged in order into a fresh state;
-   None = SQL NULL (no row seen) *)
-Definition sum_impl (w : Z) (parts : list (list Z)) : option Z :=
-  if forallb (fun p => match p with [] => true | _ => false end) parts then None
-  else Some (fold_left (sum_step w) (map (sum_fold w) parts) 0).
+Definition bind_out {A B} (x : outcome A) (f : A -> outcome B) : outcome B :=
+  match x with Ok a => f a | Err => Err | Panic => Panic end.
+
+(* SumStateCheckedAdd<i64, _> (sum.rs, as repaired by "fix: SUM must fail on overflow ..."):
+     update: self.sum = self.sum.checked_add(&input.as_()).ok_or_else(|| DbError::new("Sum overflowed"))?
+     merge : self.sum = self.sum.checked_add(&other.sum).ok_or_else(..)?
+   an overflowing step fails the statement.  One state per partition (each starts at 0 and folds its
+   own rows in order); the partition states are merged one after the other into a fresh state. *)
+Definition chk (w x : Z) : outcome Z := if in_range Signed w x then Ok x else Err.
+Definition sum_step (w : Z) (acc : outcome Z) (x : Z) : outcome Z := bind_out acc (fun s => chk w (s + x)).
+Definition sum_fold (w : Z) (xs : list Z) : outcome Z := fold_left (sum_step w) xs (Ok 0).
+Definition sum_merge (w : Z) (acc ps : outcome Z) : outcome Z :=
+  bind_out acc (fun s => bind_out ps (fun t => chk w (s + t))).
+Definition all_empty (parts : list (list Z)) : bool :=
+  forallb (fun p : list Z => match p with [] => true | _ => false end) parts.
+(* Ok None = SQL NULL (no row seen: `valid` stays false) *)
+Definition sum_impl (w : Z) (parts : list (list Z)) : outcome (option Z) :=
+  bind_out (fold_left (sum_merge w) (map (sum_fold w) parts) (Ok 0))
+           (fun v => Ok (if all_empty parts then None else Some v)).
 Definition sum_exact (parts : list (list Z)) : Z := fold_left Z.add (concat parts) 0.
+(* the property: the exact total, or an error when it is not representable *)
 Definition sum_spec (w : Z) (parts : list (list Z)) : outcome (option Z) :=
-  if forallb (fun p => match p with [] => true | _ => false end) parts then Ok None
+  if all_empty parts then Ok None
   else if in_range Signed w (sum_exact parts) then Ok (Some (sum_exact parts)) else Err.
 
 (* AVG(bigint): i128 accumulator with native `+=`, count i64; result sum as f64 / count as f64.
